@@ -343,6 +343,7 @@ func Run(c *engine.Ctx) {
 	}
 	c.Sample(caseRec{cworld.DefaultOpts(), "TGS", "nonce+1"})
 	staleReplies(c, &evals)
+	referralReplies(c, &evals)
 	krbErrors(c, &evals)
 	apiLevel(c, &evals)
 	c.Add("evaluations", evals)
@@ -396,6 +397,78 @@ func matchesIssueLog(w *cworld.World, exch, spn string, sessions interface{}, ca
 		return "cached ticket, key or end time differs from the issued one"
 	}
 	return ""
+}
+
+// referralReplies: the service lives in another realm reached through a referral (home KDC refers to R1 with a
+// cross-realm TGT). The reply of R1's KDC to the follow-up request is the genuine one or perturbed; the key it has
+// to be sealed with is the session key of the referral TGT, not the home TGT's.
+func referralReplies(c *engine.Ctx, evals *int64) {
+	const spn = "HTTP/host.chain.gokrb5"
+	for _, et := range []int32{18, 23, 17} {
+		perts := perturbations(et, []int{0, -1})
+		perts = append(perts, pert{"enc-part-under-home-tgt-session-key", func(r *simkdc.Reply, et int32, w *cworld.World) {
+			for _, is := range w.KDC.Issued {
+				if is.Exchange == "AS" {
+					r.EncKey, r.EncEtype = is.SessionKey, is.KeyEtype
+				}
+			}
+		}, "", "reject"})
+		for _, p := range perts {
+			if p.tgs == "" {
+				continue
+			}
+			o := cworld.DefaultOpts()
+			o.ETypes, o.Canonicalize, o.ChainRealms = []int32{et}, true, 1
+			vclock.Set(cworld.T0)
+			w := cworld.New(o)
+			rec := caseRec{o, "TGS after a referral", p.name}
+			var err, prelude error
+			var tb, keyv []byte
+			pn := safe(func() {
+				if e := w.Client.Login(); e != nil {
+					prelude = e
+					return
+				}
+				w.Chain[0].Perturb = func(r *simkdc.Reply) {
+					if r.Exchange == "TGS" {
+						p.apply(r, et, w)
+					}
+				}
+				tkt, key, e := w.Client.GetServiceTicket(spn)
+				err = e
+				if e == nil {
+					tb, _ = tkt.Marshal()
+					keyv = key.KeyValue
+				}
+			})
+			*evals++
+			cl := classOf(p.name)
+			switch {
+			case prelude != nil:
+				c.Violate("referral", "rejects-genuine:AS:login-before-the-TGS-exchange", map[string]interface{}{"err": trunc(prelude.Error())}, rec)
+			case pn != "":
+				c.Violate("referral", "panic:TGS-after-referral:"+cl, map[string]interface{}{"panic": pn}, rec)
+			case p.tgs == "reject" && err == nil:
+				c.Violate("referral", "accepts:TGS-after-referral:"+cl, map[string]interface{}{"etype": et}, rec)
+			case p.tgs == "accept" && err != nil:
+				c.Violate("referral", "rejects-genuine:TGS-after-referral:"+cl, map[string]interface{}{"err": trunc(err.Error()), "etype": et}, rec)
+			case p.tgs == "accept":
+				ok := false
+				for _, is := range w.Chain[0].Issued {
+					if bytes.Equal(is.Ticket, tb) && bytes.Equal(is.SessionKey, keyv) {
+						ok = true
+					}
+				}
+				if !ok {
+					c.Violate("referral", "state-differs-from-issue-log:TGS-after-referral:"+cl, nil, rec)
+				} else {
+					c.Distinct(fmt.Sprintf("referral/%d/%s/accepted", et, cl))
+				}
+			default:
+				c.Distinct(fmt.Sprintf("referral/%d/%s/%v", et, cl, err == nil))
+			}
+		}
+	}
 }
 
 // staleReplies: the reply to an earlier request (another nonce) is delivered instead of the fresh one.
@@ -462,13 +535,25 @@ func krbErrors(c *engine.Ctx, evals *int64) {
 		codes = append(codes, i)
 	}
 	codes = append(codes, 127, 200, 2147483647)
-	for _, exch := range []string{"AS", "TGS"} {
+	for _, exch := range []string{"AS", "TGS", "AS+PA"} {
 		for _, code := range codes {
 			o := cworld.DefaultOpts()
+			if exch == "AS+PA" {
+				// the KDC first asks for pre-authentication (genuinely) and answers the pre-authenticated request with the error
+				o.PreAuth = "required"
+			}
 			vclock.Set(cworld.T0)
 			w := cworld.New(o)
 			code := code
 			answer := func(req *krbmsg.KDCReq) *int32 {
+				if exch == "AS+PA" {
+					for _, pa := range req.PAData {
+						if req.App == krbmsg.AppASReq && pa.Type == 2 {
+							return &code
+						}
+					}
+					return nil
+				}
 				if (exch == "TGS") == (req.App == krbmsg.AppTGSReq) {
 					return &code
 				}
